@@ -576,6 +576,7 @@ package corerad
 //@   ghost local built Bool
 //@   ghost local builtRA Int
 //@   at call buildRA(ba, bifi) (bra, berr): ghost.built = true ; ghost.builtRA = bra
+//@   at call AdvRouterAdvertisementInconsistenciesTotal(iv, ilabels): assert M1 [C12]: iv == real(1) && len(ilabels) == 3 && ilabels[0] == a.cfg.Name && ilabels[1] == problems[rangeindex + 1].Details && ilabels[2] == problems[rangeindex + 1].Field
 //@   at call verifyRAs(va, vb) (vps): assert V1 [C04]: ghost.built && va == ghost.builtRA ; ghost.nproblems = len(vps)
 //@   loop 1 invariant L0 [C12]: 0 <= rangeindex + 1 && rangeindex + 1 <= len(problems) && ghost.inconsistencies == old(ghost.inconsistencies) + rangeindex + 1 && ghost.hookCalls == old(ghost.hookCalls) && ghost.invalid == old(ghost.invalid) && ghost.advReceived == old(ghost.advReceived) + 1 && len(problems) == ghost.nproblems && advOK(a)
 //@   ensures H1 [C07]: isRS(m) ==> result1 == nil && result0 == ite(addrIsUnspecified(host), allNodesAddr, host)
